@@ -10,7 +10,7 @@ THOROUGH_CONFIGS = ['dot', 'router']
 
 
 MANIFEST = {
-    "text": "Static decision that the action is a function of the matched *set*: the sort dominates the fold; the rule order is total and consistent (Ord and Eq read exactly {rank, id}, partial_cmp delegates, direction descending on both keys, Route delegates to the handler); and every iteration over a hash-ordered container reachable from the action builder either feeds an order-insensitive sink or is followed by a sort of the sink with a total comparator; tree lookups used by insertion visit every sibling that can hold the pattern (shared with C08), so the tree content does not depend on insertion order.",
+    "text": "Static decision that the action is a function of the matched *set*: the sort dominates the fold; the rule order is total and consistent (Ord and Eq read exactly {rank, id}, partial_cmp delegates, direction descending on both keys, Route delegates to the handler); and every iteration over a hash-ordered container reachable from the action builder either feeds an order-insensitive sink or is followed by a sort of the sink with a total comparator; tree lookups used by insertion visit every sibling that can hold the pattern (shared with C08), so the tree content does not depend on insertion order. Also (round 5): routes.sort() is the first thing done with the matched routes in from_routes_rule.",
     "technique": "static analysis: dominance, field-effect sets, unordered-iteration -> ordered-sink audit over the call graph",
 }
 
